@@ -361,6 +361,8 @@ def cases(tier, seed):
     # every rigid-cluster program in ONE case: a model built on a RigidCluster
     # is suspected (DESIGN.md section 6 #14) to ignore rotation/translation
     out.append({"id": "model:rigid", "kind": "rigid", "tier": tier})
+    out.append({"id": "model:many-parameters", "kind": "many",
+                "tier": tier})
     out.append({"id": "model:cross-section", "kind": "cross", "tier": tier})
     for lay in _tie_layouts(tier):
         out.append({"id": "tie:" + lay["id"], "kind": "tie", "tier": tier,
@@ -1669,11 +1671,76 @@ def _run_rt(case, cs):
 
 
 # --------------------------------------------------------------------------
+def _run_many(case, cs):
+    """(added by the lead) models with MORE THAN TEN distinct parameters:
+    every leaf of 2-4 spheres (and of a 4-layer sphere) has its own prior.
+    The oracle reads the parameter NAMES: '2:center.1' must land in member
+    2, centre component 1."""
+    import warnings
+    from holopy.inference import prior, AlphaModel
+    from holopy.scattering import Sphere, Spheres, Mie
+    ck = cs.ck
+    acc = []
+
+    def leafprior(k):
+        return prior.Uniform(0.0, 100.0, guess=1.0 + 0.37 * k)
+    for nsph in (2, 3, 4):
+        k = 0
+        mem = []
+        for i in range(nsph):
+            ps = [leafprior(k + j) for j in range(5)]
+            k += 5
+            mem.append(Sphere(n=ps[0], r=ps[1], center=[ps[2], ps[3],
+                                                        ps[4]]))
+        with warnings.catch_warnings():
+            warnings.simplefilter("ignore")
+            model = AlphaModel(Spheres(mem, warn=False),
+                               alpha=prior.Uniform(0.5, 1.0, 0.8),
+                               theory=Mie())
+        names = list(model.parameters)
+        ck.true("param-count", len(names) == 5 * nsph + 1 and
+                len(set(names)) == len(names), "%d free leaves + alpha give "
+                "%d parameters (%d distinct names)" %
+                (5 * nsph, len(names), len(set(names))))
+        for vec in ("primes", "reversed"):
+            vals = [2.0 + 0.5 * j + (j * j % 7) * 0.01 for j in
+                    range(len(names))]
+            if vec == "reversed":
+                vals = vals[::-1]
+            byname = dict(zip(names, vals))
+            for form, arg in (("list", list(vals)), ("dict", dict(byname))):
+                with warnings.catch_warnings():
+                    warnings.simplefilter("ignore")
+                    sc = model.scatterer_from_parameters(arg)
+                ck.trans += 1
+                for nm, v in byname.items():
+                    if ":" not in nm:
+                        continue
+                    i, leaf = nm.split(":", 1)
+                    s = sc.scatterers[int(i)]
+                    if leaf == "n":
+                        got = s.n
+                    elif leaf == "r":
+                        got = s.r
+                    else:
+                        got = s.center[int(leaf.split(".")[1])]
+                    ck.true("place-values", got == v, "%d spheres, %s "
+                            "values: parameter %s = %r arrived as %r" %
+                            (nsph, form, nm, v, got))
+                acc.append(np.array([float(np.real(s.r))
+                                     for s in sc.scatterers]))
+        g = model.initial_guess
+        ck.true("initial-guess", [g[nm] for nm in names] ==
+                [model.parameters[nm].guess for nm in names],
+                "initial guess does not list the priors' guesses")
+    return digest(*acc), {"programs": 3}
+
+
 def run_case(case):
     cs = Case()
     kind = case["kind"]
     fn = {"model": _run_model, "rigid": _run_rigid, "cross": _run_cross,
-          "tie": _run_tie, "rt": _run_rt}[kind]
+          "tie": _run_tie, "rt": _run_rt, "many": _run_many}[kind]
     fp, extra = fn(case, cs)
     res = cs.ck.result(fp=fp)
     res["extra"] = extra
